@@ -296,13 +296,14 @@ fn chain_words() -> Vec<Vec<u8>> {
     for a in CW8 { for b in CW8 { out.push(vec![a, b]); } }
     for a in CW8 { for b in CW8 { for c in CW8 { out.push(vec![a, b, c]); } } }
     for a in [0u8, 1, 0xff] { for b in [0u8, 0xff] { out.push(vec![a, b, a, b, 0x01]); out.push(vec![b, a, 0, 0, 0, b]); } }
+    for a in CW8 { for b in [0x00u8, 0xff, 0x5a] { out.push(vec![a, b, 0xff, a, b, 0x80, a]); out.push(vec![0xff, 0xff, b, a, 0xff, 0xff, 0xff, a]); } }
     out
 }
-pub fn chain_total() -> u64 { chain_words().len() as u64 * 9 }
+pub fn chain_total() -> u64 { chain_words().len() as u64 * 10 }
 pub fn chain_program(i: u64, sink: &mut ChildSink) {
     let ws = chain_words();
-    let w = ws[(i / 9) as usize].clone();
-    let op = i % 9;
+    let w = ws[(i / 10) as usize].clone();
+    let op = i % 10;
     let desc = { let w = w.clone(); move || format!("ChainCoder over the words {:x?}, hostile operation order #{op}", w) };
     hostile(sink, i, "ChainCoder constructors and operations in hostile orders", desc, || {
         type C2 = ChainCoder<u8, u16, Vec<u8>, Vec<u8>, 2>;
@@ -327,6 +328,21 @@ pub fn chain_program(i: u64, sink: &mut ChildSink) {
                     let _ = a.seek(p);
                     for _ in 0..6 { let _ = a.decode_symbol(m2); }
                     let _ = a.maybe_exhausted();
+                }
+            }
+            8 => {
+                // precision changes in the middle of decoding, then symbols of high and of minimal probability
+                for k in 0..6usize {
+                    if let Ok(mut c) = C2::from_binary(w.clone()) {
+                        for _ in 0..k { let _ = c.decode_symbol(m2); }
+                        if let Ok(mut d) = c.clone().increase_precision::<8>() { for _ in 0..3 { let _ = d.decode_symbol(m8); let _ = d.decode_symbol(Part::<u8, 8> { c: 255, p: 1 }); } let _ = d.into_remainders(); }
+                        if let Ok(mut d) = c.clone().change_precision::<7>() { for _ in 0..3 { let _ = d.decode_symbol(Part::<u8, 7> { c: 0, p: 127 }); } let _ = d.change_precision::<3>().map(|mut e| { let _ = e.decode_symbol(Part::<u8, 3> { c: 1, p: 6 }); }); }
+                        if let Ok(mut d) = c.decrease_precision::<1>() { for _ in 0..3 { let _ = d.decode_symbol(Part::<u8, 1> { c: 0, p: 1 }); } }
+                    }
+                    if let Ok(mut c) = C32::from_binary(w.clone()) {
+                        for _ in 0..k { let _ = c.decode_symbol(m5); }
+                        if let Ok(mut d) = c.increase_precision::<8>() { for _ in 0..3 { let _ = d.decode_symbol(m8); } }
+                    }
                 }
             }
             _ => {
